@@ -1298,7 +1298,14 @@ func (c *Conn) sendPending(id uint32) error {
 		// body points into the caller's Request, which stops being ours the
 		// moment the request is canceled.
 		if !pb.ctx.acquireFor(c, id) {
+			// These bytes are not going out, so the connection window they
+			// were taken from is still there for the other streams.
+			c.sendLck.Lock()
+			c.connWindow += int32(n)
+			c.sendLck.Unlock()
+
 			c.deletePending(id)
+
 			return nil
 		}
 
